@@ -391,6 +391,29 @@ def gen_grammar(max_leaves):
     )
 
 
+def gen_dot_twosided():
+    """Two-sided formulas whose right-hand side uses `.` (often right after a sign run that fuses with the tilde),
+    with the available variables supplied: `.` must exclude exactly the variables used on the left."""
+    small = G.expr(max_leaves=3, rich=False, allow_unary=False, allow_literals=False)
+    atom = st.one_of(st.sampled_from(G.NAMES).map(lambda n: ["n", n]), st.just(["1"]))
+    rhs = st.one_of(
+        st.sampled_from([["b", "+", ["0"], ["."]], ["b", "-", ["."], ["1"]], ["b", "+", ["."], ["0"]]]),
+        st.tuples(G.sign_run(), atom, st.sampled_from(["+", "-"])).map(lambda t: ["b", t[2], ["u", t[0], t[1]], ["."]]),
+        st.tuples(G.sign_run(), atom).map(lambda t: ["b", "+", ["u", t[0], ["."]], t[1]]),
+        st.tuples(atom, st.sampled_from(["+", "-", ":", "*"])).map(lambda t: ["b", t[1], ["."], t[0]]),
+        st.just(["."]),
+    )
+    return st.builds(
+        lambda l, r, ws, icpt, flags, extra: {
+            "tree": {"lhs": [l], "rhs": [r], "tilde": True}, "ws": ws, "spells": [],
+            "cfg": {"intercept": icpt, "flags": flags, "avail": sorted(set(R.variables_of(l)) | set(extra))},
+        },
+        small, rhs, st.lists(st.integers(0, 5), max_size=4), st.booleans(),
+        st.sampled_from([["TWOSIDED"], ["TWOSIDED", "MULTIPART"], ["TWOSIDED", "MULTIPART", "MULTISTAGE"]]),
+        st.lists(st.sampled_from(G.NAMES + ["y", "z"]), unique=True, max_size=4),
+    )
+
+
 def gen_specforms():
     return st.builds(
         lambda t, ws: {"tree": t, "ws": ws, "spells": []},
@@ -399,7 +422,7 @@ def gen_specforms():
     )
 
 
-N = {"quick": (2500, 800, 500, 800, 600), "thorough": (40000, 8000, 6000, 8000, 6000)}
+N = {"quick": (2500, 800, 500, 800, 600, 400), "thorough": (40000, 8000, 6000, 8000, 6000, 5000)}
 BUDGET_S = {"quick": 60, "thorough": 1500}
 
 
@@ -407,6 +430,7 @@ def campaigns(tier, shard=0, nshards=1):
     n = N[tier]
     return [
         Campaign("grammar", gen_grammar(10), check_grammar, n[0]),
+        Campaign("dot-twosided", gen_dot_twosided(), check_grammar, n[5]),
         Campaign("identities", gen_identity(), check_identity, n[1]),
         Campaign("specforms", gen_specforms(), check_specforms, n[2]),
         Campaign("reject", gen_reject(), check_reject, n[3]),
